@@ -69,7 +69,7 @@ impl View for ScrollBar {
         let fg = Face::new(None, self.face.fg, FaceAttrs::EMPTY);
         let bg = Face::new(None, self.face.bg, FaceAttrs::EMPTY);
         for index in 0..major {
-            if index < offset || index >= offset + size {
+            if index < offset || index >= offset.saturating_add(size) {
                 writer.put_cell(Cell::new_char(bg, ' '));
             } else {
                 writer.put_cell(Cell::new_char(fg, ' '));
